@@ -28,9 +28,9 @@ var infoExempt = map[string]string{
 
 // auxRequired: start function -> parameters that must reach NewSession's auxiliary items
 var auxRequired = map[string][]string{
-	"protocols/cmp/keygen.Start$1":              {"Config"},
-	"protocols/cmp/sign.StartSign$1":            {"Config", "[]byte"},
-	"protocols/cmp/presign.StartPresign$1":      {"Config", "[]byte"},
+	"protocols/cmp/keygen.Start$1":               {"Config"},
+	"protocols/cmp/sign.StartSign$1":             {"Config", "[]byte"},
+	"protocols/cmp/presign.StartPresign$1":       {"Config", "[]byte"},
 	"protocols/cmp/presign.StartPresignOnline$1": {"Config", "PreSignature", "[]byte"},
 }
 
@@ -66,18 +66,32 @@ func runC09(c *Ctx, r *Run) {
 			}
 		})
 		var hroot ssa.Value
+		var snapshot ssa.Instruction // the instruction that freezes the state the ssid is computed from
 		if ssidVal != nil {
 			// Sum(Clone(h)) or Sum(h)
 			if sc, ok := ssidVal.(*ssa.Call); ok && sc.Call.StaticCallee() != nil && sc.Call.StaticCallee().Name() == "Sum" {
 				hroot = sc.Call.Args[0]
+				snapshot = sc
 				if cc, ok := hroot.(*ssa.Call); ok && cc.Call.StaticCallee() != nil && cc.Call.StaticCallee().Name() == "Clone" {
 					hroot = cc.Call.Args[0]
+					snapshot = cc
 				}
 			}
+		}
+		// a write counts only if it happens before the snapshot on every path (it cannot follow it)
+		beforeSnapshot := func(in ssa.Instruction) bool {
+			if snapshot == nil {
+				return false
+			}
+			if in.Block() == snapshot.Block() {
+				return instrDominates(in, snapshot)
+			}
+			return blockReaches(in.Block(), snapshot.Block()) && !blockReaches(snapshot.Block(), in.Block())
 		}
 		r.Check("DEP-5", "internal/round.NewSession|ssid-is-hash-of-state", c.Pos(ns.Pos()), hroot != nil, "Helper.ssid is Sum() of the session hash state", "ssid is not derived as Sum() of the hash state")
 		written := map[string]bool{}
 		checked := map[string]bool{}
+		var late []string
 		if hroot != nil {
 			allInstrs(ns, func(in ssa.Instruction) {
 				call, ok := in.(*ssa.Call)
@@ -91,6 +105,10 @@ func runC09(c *Ctx, r *Run) {
 						errChecked = true
 					}
 				}
+				if !beforeSnapshot(call) {
+					late = append(late, c.Pos(call.Pos()))
+					return
+				}
 				for _, f := range paramFields(ns, call.Call.Args[1]) {
 					written[f] = true
 					if errChecked {
@@ -99,6 +117,8 @@ func runC09(c *Ctx, r *Run) {
 				}
 			})
 		}
+		r.Check("DEP-5", "internal/round.NewSession|nothing-written-after-the-tag", c.Pos(ns.Pos()), len(late) == 0, "every write into the session hash precedes the snapshot the ssid is computed from",
+			"the ssid is computed before the write(s) at "+strings.Join(late, ", ")+": what they bind (key material, message, presignature id) is missing from the tag carried by every message, so sessions differing only in it accept each other's messages")
 		st := infoN.Underlying().(*types.Struct)
 		for i := 0; i < st.NumFields(); i++ {
 			fn := st.Field(i).Name()
@@ -225,7 +245,7 @@ func runC09(c *Ctx, r *Run) {
 				eff = true
 			case *ssa.Call:
 				if cal := x.Call.StaticCallee(); cal != nil && cal.Signature.Recv() != nil && namedOf(cal.Signature.Recv().Type()) == H {
-					switch cal.Name() {
+					switch canonFnName(cal) {
 					case "canAccept", "duplicate", "CanAccept":
 					default:
 						if m == nil || !(m.isLock(acc, in) || m.isUnlock(acc, in)) {
